@@ -447,6 +447,27 @@ def analyse_case(case, prop, tier, root):
                         break
             if extra:
                 break
+    if prop == "C15" and case.get("mode", "r+") == "r+":
+        # an operation that raises because the swap fails must not leave its temp file behind either
+        h = hash(json.dumps(case, sort_keys=True)) & 0xFFFFFFF
+        cand = [i for i, r in enumerate(recs) if "replace" in r["trace"]]
+        if cand and h % 6 == 0:
+            i = cand[h % len(cand)]
+            k = 0
+            while k < 400:
+                obs = fault_trial(case, i, k, False, root)
+                if not obs.get("injected"):
+                    break
+                stats["fault_trials"] += 1
+                step = obs.get("step") or ("", "", None)
+                in_swap = (step[0], step[1]) in (("flush", "temp"), ("fsync", "temp"), ("close", "primary"),
+                                                 ("replace", "primary"), ("open", "primary"))
+                if in_swap and obs["out"].startswith("err") and obs["ls"] != ([], ["db.csv"]):
+                    extra.append(("impl-vs-spec", ["C15"], i,
+                                  f"`{V.sx(recs[i]['op'])[:120]}` raised because I/O call {k} {step} failed, and left files behind: {obs['ls']}",
+                                  dict(call=k)))
+                    break
+                k += 1
     return recs, final, reopened, final_ls, extra, stats
 
 
